@@ -119,6 +119,8 @@ def compat_str(s: Union[str, bytes]) -> Union[str, bytes]:
 # describe a tuple that refers twice to a tuple that refers twice to ... - a tree of
 # 2**n nodes.  Refuse to hash such a thing instead of hanging.
 MAX_HASHED_NODES = 1000000
+# tuple hashing recurses in C, without a recursion check
+MAX_HASHED_DEPTH = 200
 
 
 def compat_u2s(u):
@@ -171,8 +173,9 @@ class _VersionIndependentUnmarshaller:
 
         self.internStrings = []
         self.internObjects = []
-        # id(container) -> number of nodes visited when hashing it, see check_hash_cost()
+        # id(container) -> (nodes visited when hashing it, depth, the container), see check_hash_cost()
         self.hash_cost = {}
+        self.hashed_nodes = 0
         self.version_tuple = tuple()
         self.is_graal = False
         self.is_pypy = False
@@ -196,9 +199,13 @@ class _VersionIndependentUnmarshaller:
 
     def check_hash_cost(self, obj):
         """Return ``obj``, a would-be set member or dict key, unless hashing it
-        would visit more than MAX_HASHED_NODES nodes; then raise ValueError.
-        The size of each container is computed once (by identity), so the
-        check itself is linear in the number of distinct objects."""
+        would visit too many nodes or recurse too deeply; then raise ValueError.
+
+        The size and depth of each container are computed once, so the check is
+        linear in the number of distinct objects.  The memo is keyed by id() and
+        keeps the measured object alive: otherwise a freed tuple's address can be
+        handed to a new, much bigger one, which would then inherit the stale
+        measurements.  The node budget is per load, not per member."""
         sizes = self.hash_cost
         stack = [(obj, False)]
         while stack:
@@ -206,15 +213,26 @@ class _VersionIndependentUnmarshaller:
             if not isinstance(item, (tuple, frozenset)) or id(item) in sizes:
                 continue
             if children_done:
-                size = 1 + sum(sizes.get(id(child), 1) for child in item)
-                if size > MAX_HASHED_NODES:
+                size = depth = 1
+                for child in item:
+                    measured = sizes.get(id(child))
+                    if measured is None:
+                        size += 1
+                    else:
+                        size += measured[0]
+                        depth = max(depth, measured[1] + 1)
+                if size > MAX_HASHED_NODES or depth > MAX_HASHED_DEPTH:
                     raise ValueError(
                         "set member or dict key is too large to hash (shared references?)"
                     )
-                sizes[id(item)] = size
+                sizes[id(item)] = (size, depth, item)
             else:
                 stack.append((item, True))
                 stack.extend((child, False) for child in item)
+        measured = sizes.get(id(obj))
+        self.hashed_nodes += measured[0] if measured is not None else 1
+        if self.hashed_nodes > MAX_HASHED_NODES:
+            raise ValueError("too many set members and dict keys to hash")
         return obj
 
     # Python 3.4+ support for reference objects.
